@@ -84,8 +84,6 @@ def judge_linearisation(g, res, label):
     for o in ops:
         k = o.split()[0]
         kinds[k] = kinds.get(k, 0) + 1
-    if g["problem"]:
-        return "%s: linearisation: %s" % (label, g["problem"]), []
     # (i)
     mon, rc, err = vlib.run_model("C09", ["mon %s => %s" % (o, a) for o, a in zip(ops, answers)], timeout=1500)
     if len(mon) != len(ops):
@@ -94,6 +92,8 @@ def judge_linearisation(g, res, label):
         if m != "good":
             return ("%s: linearisation: C09 monitor rejects critical section #%d (thread %s) `%s => %s`: %s" %
                     (label, i, heads[i][1], ops[i], answers[i][:160], m)), []
+    if g["problem"]:      # the callback could not name the span of an event although the monitor accepted every answer
+        return "%s: linearisation: %s" % (label, g["problem"]), []
     # (ii)
     model, rc, err = vlib.run_model("C09", ops, timeout=1500)
     d = vlib.first_diff(answers, model)
